@@ -7,6 +7,7 @@ import (
 	"fmt"
 	"reflect"
 	"strings"
+	"sync"
 	"testing"
 
 	"github.com/compose-spec/compose-go/v2/types"
@@ -373,7 +374,72 @@ func c20Check(c *Ctx, cs c20Case) *Failure {
 	return nil
 }
 
+// c20ConcurrentCheck: one goroutine renders the project with the secret content, others render it without at the
+// same time: a default rendering never carries a secret value, whoever else is rendering (the project is only read)
+func c20ConcurrentCheck(c *Ctx, cs c20Case) *Failure {
+	doc := cs.document()
+	env := map[string]string{"UNRELATED": "plain"}
+	var canaries []string
+	for k, v := range cs.Canaries {
+		env[k] = v
+	}
+	for _, s := range cs.Secrets {
+		if s.Kind == "environment" && s.VarSet && len(cs.Canaries[s.Var]) >= 6 {
+			canaries = append(canaries, cs.Canaries[s.Var])
+		}
+	}
+	if len(canaries) == 0 {
+		return nil
+	}
+	r := loadCase{Files: []memFile{{Name: "compose.yaml", Content: doc}}, Main: []string{"compose.yaml"}, Env: env, Opts: loadOpts{Profiles: []string{"*"}}}.loadMem()
+	if r.Panic != nil || r.Err != nil {
+		return r.Panic
+	}
+	p := r.Project
+	c.NonTrivial(jsonKey(cs), map[string]any{"secrets": len(cs.Secrets)})
+	var wg sync.WaitGroup
+	leaks := make([]string, 4)
+	start := make(chan struct{})
+	for g := 0; g < 4; g++ {
+		wg.Add(1)
+		go func(g int) {
+			defer wg.Done()
+			<-start
+			for i := 0; i < 40 && leaks[g] == ""; i++ {
+				var out []byte
+				switch g {
+				case 0:
+					_, _ = p.MarshalYAML(types.WithSecretContent)
+					continue
+				case 1:
+					_, _ = p.MarshalJSON(types.WithSecretContent)
+					continue
+				case 2:
+					out, _ = p.MarshalYAML()
+				case 3:
+					out, _ = p.MarshalJSON()
+				}
+				for _, cn := range canaries {
+					// (compare on a form both renderings keep verbatim: canaries are generated from plain letters plus specials)
+					if plain := strings.Trim(cn, " \t\n"); len(plain) >= 6 && !strings.ContainsAny(plain, "\"\\\n\t'") && strings.Contains(string(out), plain) {
+						leaks[g] = fmt.Sprintf("a default rendering made while another goroutine renders with content contains the secret value %q", cn)
+					}
+				}
+			}
+		}(g)
+	}
+	close(start)
+	wg.Wait()
+	for _, l := range leaks {
+		if l != "" {
+			return failf("c20:secret-leaked:concurrent-renderings", "%s", l)
+		}
+	}
+	return nil
+}
+
 func TestC20(t *testing.T) {
 	c := NewCtx(t, "C20")
+	RunRapid(c, t, Sub[c20Case]{Kind: "concurrent-renderings", Quick: 400, Thorough: 8000, Gen: genC20, Check: c20ConcurrentCheck})
 	RunRapid(c, t, Sub[c20Case]{Kind: "render", Quick: 20000, Thorough: 200_000, Gen: genC20, Check: c20Check})
 }
